@@ -30,8 +30,19 @@ type Scenario struct {
 	Faulty bool // uses fault injection (separate batch from fault-free scenarios)
 }
 
-// cleanDelta is the smallest number of goroutines a bubble has been seen to hold at its end (a run without leaks).
+// cleanDelta is the number of goroutines an empty bubble holds at its end (root + synctest plumbing), measured once per
+// process by calibrate before the first run, so that a process that only replays one (leaking) run has a baseline too.
 var cleanDelta = -1
+
+func calibrate(t *testing.T) {
+	t.Run("calibrate", func(t *testing.T) {
+		before := runtime.NumGoroutine()
+		synctest.Test(t, func(t *testing.T) {
+			synctest.Wait()
+			cleanDelta = runtime.NumGoroutine() - before
+		})
+	})
+}
 
 var scenarios = map[string]*Scenario{}
 var scenarioOrder []string
@@ -64,6 +75,9 @@ func execute(t *testing.T, scn *Scenario, tape *Tape, trace bool) (res *RunResul
 	}()
 	// A subtest per run: when the race detector (or anything else) fails the bubble's test, synctest.Test calls FailNow,
 	// which must only end this run's goroutine, not the worker loop.
+	if cleanDelta < 0 {
+		calibrate(t)
+	}
 	var pre any
 	if scn.Pre != nil {
 		t.Run("pre", func(t *testing.T) {
